@@ -194,14 +194,23 @@ example : encodeURIComponent (ascii "a b+c/d") = ascii "a%20b%2Bc%2Fd" := by dec
 -- "é" = C3 A9 in UTF-8, upper-case hex
 example : encodeURIComponent [195, 169] = ascii "%C3%A9" := by decide
 example : pathEscape [0, 255] = ascii "%00%FF" := by decide
--- decoding: either hex case, `+` kept by PathUnescape and turned into a space by QueryUnescape
-example : pathUnescape (ascii "a%2fb%2Fc+d") = some (ascii "a/b/c+d") := by decide
-example : queryUnescape (ascii "a%2fb%2Fc+d") = some (ascii "a/b/c d") := by decide
-example : decodeURIComponent (ascii "%c3%A9") = some [195, 169] := by decide
--- malformed escapes are errors
-example : pathUnescape (ascii "%") = none ∧ pathUnescape (ascii "ab%4") = none ∧
-    pathUnescape (ascii "%4G") = none ∧ queryUnescape (ascii "%zz") = none ∧
-    decodeURIComponent (ascii "100%") = none := by decide
+-- Decoder inputs are written as literal byte lists: a lazily evaluated `ascii "…"` argument is
+-- re-evaluated at every nested match of `unescapeWith` during kernel reduction and `decide`
+-- then does not terminate in reasonable time (the model itself evaluates instantly).
+-- "a%2fb%2Fc+d": either hex case; `+` kept by PathUnescape, turned into a space by QueryUnescape
+example : pathUnescape [97, 37, 50, 102, 98, 37, 50, 70, 99, 43, 100] = some (ascii "a/b/c+d") := by
+  decide
+example : queryUnescape [97, 37, 50, 102, 98, 37, 50, 70, 99, 43, 100] = some (ascii "a/b/c d") := by
+  decide
+-- "%c3%A9"
+example : decodeURIComponent [37, 99, 51, 37, 65, 57] = some [195, 169] := by decide
+-- malformed escapes are errors: "%", "ab%4", "%4G", "%zz", "100%"
+example : pathUnescape [37] = none ∧ pathUnescape [97, 98, 37, 52] = none ∧
+    pathUnescape [37, 52, 71] = none ∧ queryUnescape [37, 122, 122] = none ∧
+    decodeURIComponent [49, 48, 48, 37] = none := by decide
 example : pathUnescape [] = some [] ∧ pathEscape [] = [] := by decide
+-- round trip on a concrete value
+example : pathUnescape (pathEscape [97, 47, 98, 32, 99]) = some [97, 47, 98, 32, 99] := by decide
+example : queryUnescape (queryEscape [97, 32, 43, 38, 99]) = some [97, 32, 43, 38, 99] := by decide
 
 end Sebuf
